@@ -83,7 +83,13 @@ def _run_image(job):
                     ctx.solver.add(ctx.inputs[f"v_{i}_{j}"] != z3.RealVal(repr(NAN_SENTINEL)))
                     nv.o[i, j] = v
                     vals[(i, j)] = ctx.inputs[f"v_{i}_{j}"]
+            if job.get("history"):
+                # the same plot object was drawn before with other cell values: the new drawing must show the new ones
+                mp.add_node_values(np.arange(r * c, dtype=float).reshape(r, c) * 0.25 + 0.125, hide_colorbar=True)
+                mp.plot(fig_ax=(None, FakeAx()))
             mp.add_node_values(nv, hide_colorbar=True)
+        elif job.get("history"):
+            mp.plot(fig_ax=(None, FakeAx()))
         ax = FakeAx()
         mp.plot(fig_ax=(None, ax))
         obs = [("exactly one image handed to imshow", z3.BoolVal(len(ax.images) == 1))]
@@ -132,13 +138,18 @@ def _replay_image(job, inputs, notes):
             return float(v[0]) / float(v[1]) if isinstance(v, (list, tuple)) else float(v)
 
         nv = np.array([[f(inputs.get(f"v_{i}_{j}", 0)) for j in range(c)] for i in range(r)], dtype=float)
+        if job.get("history"):
+            mp.add_node_values(np.arange(r * c, dtype=float).reshape(r, c) * 0.25 + 0.125, hide_colorbar=True)
+            mp.plot(fig_ax=(None, FakeAx()))
         mp.add_node_values(nv, hide_colorbar=True)
+    elif job.get("history"):
+        mp.plot(fig_ax=(None, FakeAx()))
     ax = FakeAx()
     mp.plot(fig_ax=(None, ax))
     if len(ax.images) != 1:
         return f"plot-no-image | {len(ax.images)} images"
     img = np.asarray(ax.images[0][0], dtype=float)
-    tag = f"{r}x{c} unit_length={ul} values={'yes' if with_values else 'no'} connection_list={cl.astype(int).tolist()}" + (f" node_values={nv.tolist()}" if with_values else "")
+    tag = ("second drawing of the same plot object" + (" after its cell values were replaced; " if with_values else "; ") if job.get("history") else "") + f"{r}x{c} unit_length={ul} values={'yes' if with_values else 'no'} connection_list={cl.astype(int).tolist()}" + (f" node_values={nv.tolist()}" if with_values else "")
     if img.shape != (r * ul + 1, c * ul + 1):
         return f"plot-image-shape | {img.shape}; {tag}"
     for i in range(r):
@@ -329,6 +340,9 @@ def jobs(tier, seed):
             for values in (False, True):
                 out.append(dict(h="image", r=r, c=c, ul=ul, values=values, max_seconds=3300))
     out.append(dict(h="image", r=5, c=5, ul=3, values=False, max_seconds=3300))
+    for r, c, ul in ([(2, 2, 3), (2, 3, 4)] if q else [(2, 2, 3), (2, 3, 4), (3, 2, 5), (3, 3, 3)]):
+        for values in (False, True):
+            out.append(dict(h="image", r=r, c=c, ul=ul, values=values, history="replot", max_seconds=3300))
     out.append(dict(h="image", r=4 if q else 8, c=4 if q else 8, ul=3, values=True, max_seconds=3300))
     for which in ("true", "predicted"):
         for L in ((1, 2, 3) if q else (1, 2, 3, 4)):
